@@ -260,20 +260,23 @@ func c01CommitGate(c *core.Ctx) {
 	}
 	ptr := types.NewPointer(buf)
 	digestEq := func(b *ssa.BasicBlock, recv ssa.Value) bool {
-		for _, cond := range facts.CondsAt(b) {
+		found := false
+		want := facts.Term(recv)
+		// also what a nil error of a private checking helper implies
+		forEachCondImplied(b, 2, func(cond facts.Cond) {
 			x, op, y, ok := facts.Cmp(cond)
 			if !ok || op != token.EQL {
-				continue
+				return
 			}
 			for _, side := range []ssa.Value{x, y} {
 				if call, isCall := facts.Resolve(side).(*ssa.Call); isCall && strings.HasSuffix(facts.CalleeName(&call.Call), "go-digest.FromBytes") {
-					if bb, fld, isF := facts.FieldOf(facts.Resolve(call.Call.Args[0])); isF && fld == "buf" && facts.Term(bb) == facts.Term(recv) {
-						return true
+					if bb, fld, isF := facts.FieldOf(facts.Resolve(call.Call.Args[0])); isF && fld == "buf" && facts.Term(bb) == want {
+						found = true
 					}
 				}
 			}
-		}
-		return false
+		})
+		return found
 	}
 	n := 0
 	for _, fn := range c.P.ModuleFunctions("ocimem") {
